@@ -1,5 +1,6 @@
 import LenaModel.DriverUtil
 import LenaModel.Model.C05
+import LenaModel.Model.C05Sel
 /-! Model driver for C05.  Values: int | "str" | [list] | {"t":[tuple]} | {"d":{dict}} | {"q":[n,d]}.
 Element specs: see `specOf`.  Requests:
   {"op":"chain","args":[spec..],"flow":[v..],"bufsizes":[null|n..]}
@@ -72,6 +73,24 @@ def accOfJson (j : Json) : Option AccKind :=
   | some "mean" => some .mean
   | some "store" => (bool? (getD j "group")).map AccKind.store
   | some "count" => (str? (getD j "name")).map AccKind.count
+  | _ => none
+
+/-- a selector description of the harness (`c05.py: build_sel`); `roe` null = the default `True` -/
+partial def selOf (j : Json) : Option SelArg :=
+  let items : Option (List SelArg) := do (← arr? (getD j "xs")).toList.mapM selOf
+  let roe : Bool := (bool? (getD j "roe")).getD true
+  match str? (getD j "s") with
+  | some "pred" => do some (.pred (← predOf (← str? (getD j "p"))))
+  | some "cls" =>
+    match str? (getD j "c") with
+    | some "int" => some (.cls .int) | some "str" => some (.cls .str) | some "list" => some (.cls .list) | _ => none
+  | some "str" => do some (.key (← str? (getD j "v")))
+  | some "list" => items.map SelArg.list
+  | some "tuple" => items.map SelArg.tuple
+  | some "S" => do some (.selector (← selOf (getD j "x")) roe)
+  | some "Not" => do some (.not (← selOf (getD j "x")) roe)
+  | some "Or" => items.map (SelArg.or · roe)
+  | some "And" => items.map (SelArg.and · roe)
   | _ => none
 
 partial def specOf (j : Json) : Option Spec :=
@@ -344,6 +363,15 @@ def handle (j : Json) : Json :=
               ("stateless", Json.bool sp.stateless)])
     | none => err "bad caps args"
   | some "stage" =>
+    if str? (getD (getD j "el") "k") == some "filter" && !(getD (getD j "el") "sel").isNull then
+      -- a Filter built from a selector of any form (`Model/C05Sel.lean`)
+      match selOf (getD (getD j "el") "sel"), valuesOf (getD j "flow"), optExc (getD j "term") with
+      | some x, some flow, some term =>
+        match driveStageObj (selFilterObj x) flow term with
+        | .error e => initErr e
+        | .ok (f, r) => Json.mkObj [("fill", fillResJson f), ("run", strmJson r)]
+      | _, _, _ => err "bad stage args (sel)"
+    else
     match specOf (getD j "el"), valuesOf (getD j "flow"), optExc (getD j "term") with
     | some sp, some flow, some term =>
       match driveStage sp flow term with
